@@ -2759,6 +2759,10 @@ class HasTraits(CHasTraits, metaclass=MetaHasTraits):
         # A partner's handlers can unlink partners: walk a copy of the links.
         for object, object_name in list(info[name].values()):
             object = object()
+            if object is None:
+                # The partner has been garbage collected since the links
+                # were copied.
+                continue
             if object_name not in object._get_sync_trait_info()[""]:
                 try:
                     setattr(object, object_name, new)
@@ -2784,6 +2788,10 @@ class HasTraits(CHasTraits, metaclass=MetaHasTraits):
         # A partner's handlers can unlink partners: walk a copy of the links.
         for object, object_name in list(info[name].values()):
             object = object()
+            if object is None:
+                # The partner has been garbage collected since the links
+                # were copied.
+                continue
             if object_name not in object._get_sync_trait_info()[""]:
                 try:
                     if isinstance(index, slice) and not event.added:
